@@ -245,6 +245,10 @@ func NewTransport(nhConfig config.NodeHostConfig,
 	}
 	t.stopper.RunWorker(func() {
 		ticker := time.NewTicker(time.Second)
+		if verifEnabled {
+			ticker.Stop()
+			return
+		}
 		defer ticker.Stop()
 		for {
 			select {
@@ -352,6 +356,14 @@ func (t *Transport) Send(req pb.Message) bool {
 }
 
 func (t *Transport) send(req pb.Message) (bool, failedSend) {
+	if verifEnabled {
+		if handled, ok := t.verifSend(req); handled {
+			if ok {
+				return true, success
+			}
+			return false, unknownTarget
+		}
+	}
 	if req.Type == pb.InstallSnapshot {
 		panic("snapshot message must be sent via its own channel.")
 	}
